@@ -131,6 +131,12 @@ func TestC09StateMachine(t *testing.T) {
 	c.rule(ruleC09)
 	c.rule("rapid state machine (t.Repeat) with histories up to rapid's step bound on random terms from the C08 generator")
 	var last *Replay
+	// rapid.Check ends the test goroutine on failure (FailNow): report from a deferred call
+	defer func() {
+		if last != nil {
+			violation(t, last)
+		}
+	}()
 	k := 0
 	rapid.Check(t, func(rt *rapid.T) {
 		tm := genTerm(termOpts{maxDepth: 5}).Draw(rt, "term")
@@ -211,7 +217,4 @@ func TestC09StateMachine(t *testing.T) {
 			c.sample(map[string]any{"generator": tm.String(), "history": opsString(ops)})
 		}
 	})
-	if last != nil {
-		violation(t, last)
-	}
 }
